@@ -603,7 +603,18 @@ func randomGrammar(r *rng.R) gcase {
 		nn = 6
 	}
 	nts := append([]string{}, ntNames[:nn]...)
-	if r.Chance(1, 6) { // names that already carry a suffix: exercises the suffix trimming / collisions
+	if r.Chance(1, 8) {
+		// names that concatenate ambiguously (A B vs AB, AB A vs A BA ...): anything keyed by the
+		// concatenated renderings of a body confuses different bodies
+		pool := []string{"S", "A", "B", "AB", "BA", "ABA"}
+		if nn > len(pool) {
+			nn = len(pool)
+		}
+		nts = append([]string{}, pool[:nn]...)
+		if nn >= 4 && r.Bool() {
+			nts[1], nts[3] = nts[3], nts[1]
+		}
+	} else if r.Chance(1, 6) { // names that already carry a suffix: exercises the suffix trimming / collisions
 		for i := range nts {
 			if r.Chance(1, 3) {
 				nts[i] = odd[r.Intn(len(odd))]
@@ -746,7 +757,7 @@ func randomGrammar(r *rng.R) gcase {
 func adversarial(w *tr.W, r *rng.R, n int, ops []string) {
 	for i := 0; i < n; i++ {
 		var c gcase
-		switch i % 11 {
+		switch i % 14 {
 		case 0: // long body, every position nullable (D08a)
 			k := r.Range(4, 8)
 			c.start = "S"
@@ -877,6 +888,46 @@ func adversarial(w *tr.W, r *rng.R, n int, ops []string) {
 			c.prods = append(c.prods, prod{"S", []sym{T("a"), T("$")}}, prod{"S", []sym{T("b"), T(em)}})
 			if r.Bool() {
 				c.prods = append(c.prods, prod{"S", []sym{T("$"), NT("S"), T(em)}})
+			}
+		case 11: // a single-production non-terminal whose body starts with an earlier one, used by a later one (ELR)
+			c.start = "S"
+			x, y := "a", "b"
+			c.prods = append(c.prods, prod{"S", []sym{NT("A"), NT("B")}}, prod{"S", []sym{T("c")}},
+				prod{"A", []sym{NT("S"), T(x)}},
+				prod{"B", []sym{NT("A"), T(y)}}, prod{"B", []sym{T("c")}})
+			switch r.Intn(3) {
+			case 0:
+				c.prods = append(c.prods, prod{"C", []sym{NT("B"), T(x)}}, prod{"S", []sym{NT("C")}})
+			case 1:
+				c.prods = append(c.prods, prod{"B", []sym{NT("S"), T(y), NT("A")}})
+			}
+		case 12: // non-terminal names that concatenate ambiguously, all nullable, in one body (DEL variants)
+			c.start = "S"
+			names := []string{"A", "B", "AB", "BA", "ABA"}
+			k := r.Range(3, 5)
+			body := []sym{}
+			for j := 0; j < k; j++ {
+				body = append(body, NT(names[j]))
+			}
+			if r.Bool() {
+				body[0], body[k-1] = body[k-1], body[0]
+			}
+			c.prods = append(c.prods, prod{"S", body})
+			for j := 0; j < k; j++ {
+				c.prods = append(c.prods, prod{names[j], []sym{}}, prod{names[j], []sym{T([]string{"a", "b", "c"}[j%3])}})
+			}
+		case 13: // wide grammars: 14-16, 32-34, 67-69 heads (hash-table resize thresholds), one factorable head
+			sizes := []int{14, 15, 16, 32, 33, 34, 67, 68, 69}
+			k := sizes[(i/14)%len(sizes)]
+			c.start = "S"
+			c.shared = r.Bool()
+			c.prods = append(c.prods, prod{"S", []sym{T("a"), NT("H1")}}, prod{"S", []sym{T("a"), NT("H2"), T("b")}}, prod{"S", []sym{T("c")}})
+			for j := 1; j < k; j++ {
+				h := fmt.Sprintf("H%d", j)
+				if j+1 < k && r.Chance(1, 3) {
+					c.prods = append(c.prods, prod{h, []sym{NT(fmt.Sprintf("H%d", j+1)), T("b")}})
+				}
+				c.prods = append(c.prods, prod{h, []sym{T([]string{"a", "b", "c"}[j%3])}})
 			}
 		default: // long bodies mixing terminals and non-terminals (TERM/BIN chains)
 			c.start = "S"
